@@ -1,5 +1,6 @@
 import Model.Codec
 import Model.C07
+import Model.C07Adam
 open Lean Codec C07
 
 /-! Driver for C07: trace acceptance.  Points are `List Rat` (exact images of the doubles the
@@ -126,6 +127,11 @@ def handle (j : Json) : Except String Json := do
     let d ← domOfJson (← field j "dom")
     let pts ← listOfJson ptOfJson (← field j "points")
     pure (jBools (pts.map (inDomain d)))
+  | "adam" =>
+    -- gradient history of one coordinate (IEEE bit patterns) -> displacements of the coded moment arithmetic
+    let lr ← float j "lr"; let b1 ← float j "beta1"; let b2 ← float j "beta2"; let eps ← float j "eps"
+    let hist ← floatMat j "grads"
+    pure (Json.mkObj [("updates", jFloatMat (hist.map (C07Adam.updates lr b1 b2 eps)))])
   | op => throw s!"unknown op {op}"
 
 def main : IO Unit := Codec.loop handle
